@@ -16,6 +16,8 @@ RULE = (
     "'-', len+1, '01', '1' on objects) and a non-existent deep path; ops add/replace/test x 6 values, remove, move/copy x all "
     "(from,path) pairs incl. into-own-child, onto-self and the root. All histories of length 1 from every start document, "
     "length 2 from a subset (full menu), length 3 over a reduced menu (thorough). "
+    "STR: documents that are, hold, or are turned by an add/replace of the root into a JSON string whose content looks like JSON "
+    "text (6 such strings), followed by every operation over 7 paths. "
     "state = distinct (start document, history); non-trivial = the reference applies the whole history without error"
 )
 ASSUMPTIONS = [
@@ -67,6 +69,8 @@ def menu_paths(doc):
             paths.append(toks + ["01"])
             if n >= 1:
                 paths.append(toks + ["00"])
+                # the pointer extension '#<index>' (index of an element) is not an RFC 6901 array index
+                paths.append(toks + ["#0"])
         else:
             paths.append(toks + ["0"])
             paths.append(toks + ["x"])
@@ -110,6 +114,38 @@ def bounds(tier, seed):
 
 LEN2_QUICK = [0, 2, 3, 5]
 
+# A document that is (or that an operation turns into) a JSON string whose content looks like JSON text: jsonpath/_data.py
+# parses a str argument as JSON text, so such a value must never be handed to a text-accepting entry point again.
+JSONISH = ["[1]", "{\"a\": 1}", "{", "[1, 2", "\"x\"", "1"]
+STR_PATHS = ["", "/0", "/a", "/-", "/1", "/0/0", "/a/b"]
+
+
+def str_histories():
+    out = []
+    second = []
+    for t in STR_PATHS:
+        for name in ("add", "replace", "test"):
+            for v in (1, "[1]", [1]):
+                second.append({"op": name, "path": t, "value": v})
+        if t:
+            second.append({"op": "remove", "path": t})
+        for f in STR_PATHS:
+            second.append({"op": "copy", "from": f, "path": t})
+            if f:
+                second.append({"op": "move", "from": f, "path": t})
+    for js in JSONISH:
+        # (a) the string is the document itself, given as JSON text; (b) an operation makes it the document
+        for op2 in second:
+            out.append((("text", js), [op2]))
+            for start in ({}, [1], {"a": [1]}):
+                for first in ({"op": "add", "path": "", "value": js}, {"op": "replace", "path": "", "value": js}):
+                    out.append((("value", start), [first, op2]))
+        # (c) the string sits inside the document and an operation addresses below it
+        for op2 in second:
+            if op2["path"].startswith("/a") or op2.get("from", "").startswith("/a"):
+                out.append((("value", {"a": js}), [op2]))
+    return out
+
 
 def plan(tier, seed):
     shards = []
@@ -120,6 +156,9 @@ def plan(tier, seed):
     for i in range(nd):
         for k in range(16):
             shards.append(("L2", tier, i, k, 16))
+    ns = len(str_histories())
+    for lo in range(0, ns, 600):
+        shards.append(("STR", lo, min(ns, lo + 600)))
     if tier == "quick":
         # one extra complete length-2 block chosen by the seed (a start document of the thorough set)
         for k in range(8):
@@ -139,7 +178,15 @@ def len2_docs(tier):
 
 def run_shard(shard, acc):
     kind = shard[0]
-    if kind == "L1":
+    if kind == "STR":
+        import json
+
+        for (form, start), ops in str_histories()[shard[1]:shard[2]]:
+            if form == "text":
+                _run("STR", json.loads(json.dumps(start)), ops, acc, as_text=json.dumps(start))
+            else:
+                _run("STR", start, ops, acc)
+    elif kind == "L1":
         _, tier, lo, hi = shard
         for doc in start_docs(tier)[lo:hi]:
             for op in menu(doc):
@@ -177,7 +224,7 @@ def run_shard(shard, acc):
                     _run("L3", doc, [op1, op2, op3], acc)
 
 
-def _run(sub, doc, ops, acc, record=True):
+def _run(sub, doc, ops, acc, record=True, as_text=None):
     from jsonpath import JSONPatch
     from jsonpath import patch as patchmod
     from jsonpath.exceptions import JSONPatchError, JSONPatchTestFailure
@@ -190,7 +237,7 @@ def _run(sub, doc, ops, acc, record=True):
         exp = ("error",)
     obs = []
     for route in ("JSONPatch", "patch.apply"):
-        d = deep_copy(doc)
+        d = deep_copy(doc) if as_text is None else as_text
         o = [deep_copy(op) for op in ops]
         try:
             if route == "JSONPatch":
@@ -232,7 +279,7 @@ def _run(sub, doc, ops, acc, record=True):
         if acc.evals % 5000 == 1:
             acc.sample(sub, {"doc": doc, "ops": ops, "expected": list(exp)[:1] + ([exp[1]] if exp[0] == "doc" else [])})
     if bad:
-        acc.violation(sub, bad[0], {"doc": doc, "ops": ops}, expected=list(exp),
+        acc.violation(sub, bad[0], {"doc": doc, "ops": ops, **({"as_text": as_text} if as_text is not None else {})}, expected=list(exp),
                       observed=list(bad[1]) if bad[1][0] != "doc" else ["doc", bad[1][1]])
 
 
@@ -246,10 +293,12 @@ def REQUIRE(tier):
 
 
 def check_case(sub, case, acc):
-    _run(sub, case["doc"], case["ops"], acc, record=False)
+    _run(sub, case["doc"], case["ops"], acc, record=False, as_text=case.get("as_text"))
 
 
 def shrink(sub, case):
+    if sub == "STR":
+        return  # already minimal (one or two operations on a fixed document form)
     doc, ops = case["doc"], case["ops"]
     for i in range(len(ops)):
         if len(ops) > 1:
